@@ -529,6 +529,11 @@ impl DfEngine {
     }
 
     /// Reads the same bytes through datafile::Reader (file.rs) from a real temp file, optionally behind a junk prefix.
+    /// via_file runs through `Reader::new`: in half of them the application keeps a duplicate of the file handle
+    fn shares_cursor(cfg: &DfCfg) -> bool {
+        !(cfg.file_prefix == 0 && cfg.seed & 1 == 0) && cfg.seed & 2 != 0
+    }
+
     fn file_traverse(cfg: &DfCfg, bytes: &[u8]) -> Result<Result<(Vec<u16>, Vec<MItem>, Vec<Result<Vec<u8>, String>>), String>, PanicInfo> {
         use std::io::{Seek, SeekFrom, Write};
         let path = std::env::temp_dir().join(format!("tw2sim-df-{}-{:016x}-{:?}.dat", std::process::id(), cfg.seed, std::thread::current().id()).replace(['(', ')'], ""));
@@ -543,19 +548,45 @@ impl DfEngine {
             let _ = f.write_all(bytes);
         }
         let r = guard(|| {
+            // a second handle to the same open file (dup: one shared cursor) stays with the application, which
+            // moves the cursor between the reader's calls
+            let mut shared: Option<std::fs::File> = None;
             let mut reader = if prefix == 0 && cfg.seed & 1 == 0 {
                 libtw2_datafile::Reader::open(&path).map_err(|e| format!("{:?}", e))?
             } else {
                 let mut f = std::fs::File::open(&path).map_err(|e| format!("harness: {}", e))?;
                 f.seek(SeekFrom::Start(prefix as u64)).map_err(|e| format!("harness: {}", e))?;
+                if Self::shares_cursor(cfg) {
+                    shared = f.try_clone().ok();
+                }
                 libtw2_datafile::Reader::new(f).map_err(|e| format!("{:?}", e))?
             };
+            let is_shared = shared.is_some();
+            let file_len = (prefix + bytes.len()) as u64;
+            let mut moves = 0u64;
+            let mut disturb = |k: u64| {
+                if let Some(o) = shared.as_mut() {
+                    let to = mix(cfg.seed, 0x63757273, k) % (file_len + 1);
+                    let _ = o.seek(SeekFrom::Start(to));
+                    moves += 1;
+                }
+            };
+            disturb(0);
             let types: Vec<u16> = reader.item_types().collect();
             let items: Vec<MItem> = reader.items().map(|i| MItem { type_id: i.type_id, id: i.id, data: i.data.to_vec() }).collect();
             for &t in &types {
                 let _ = reader.item_type_items(t).count();
             }
-            let data: Vec<Result<Vec<u8>, String>> = reader.data_iter().map(|d| d.map_err(|e| format!("{:?}", e))).collect();
+            let data: Vec<Result<Vec<u8>, String>> = if is_shared {
+                let mut out = Vec::new();
+                for i in 0..reader.num_data() {
+                    out.push(reader.read_data(i).map_err(|e| format!("{:?}", e)));
+                    disturb(1 + i as u64);
+                }
+                out
+            } else {
+                reader.data_iter().map(|d| d.map_err(|e| format!("{:?}", e))).collect()
+            };
             // every other accessor of the file-level reader must agree with the iterators
             let mut inconsistent: Option<String> = None;
             let _ = reader.version();
@@ -1036,6 +1067,9 @@ impl Engine for DfEngine {
                 }
                 Ok(Ok((types, items, data))) => {
                     ctx.count("probe_via_file_read");
+                    if DfEngine::shares_cursor(cfg) {
+                        ctx.count("fault_shared_file_cursor_moved");
+                    }
                     if lay.data_start > 8192 {
                         ctx.count("probe_via_file_tables_over_8k");
                     }
@@ -1152,7 +1186,7 @@ impl Engine for DfEngine {
             real: vec!["datafile::raw::Reader (header, tables, check(), item/data accessors)", "datafile::format", "zlib-minimal + libz", "map::reader::Reader over datafile::Reader over a temp file (file.rs plumbing)"],
             stub: vec!["the disk behind CallbackNew / CallbackReadData (simulated)"],
             required_probes: vec!["probe_intact_file_read", "probe_damaged_file_accepted", "probe_damaged_file_rejected", "probe_map_traversed", "probe_map_intact_read", "probe_map_game_layers_ok", "probe_map_8plus_accessors_ok", "probe_via_file_read", "probe_via_file_tables_over_8k", "probe_via_file_with_prefix"],
-            fault_kinds: vec!["fault_torn_tail", "fault_bit_rot_field", "fault_bit_rot_coherent", "fault_bit_flip", "fault_callback_error", "fault_file_shrinks_after_open", "fault_alloc_refused"],
+            fault_kinds: vec!["fault_torn_tail", "fault_bit_rot_field", "fault_bit_rot_coherent", "fault_bit_flip", "fault_callback_error", "fault_file_shrinks_after_open", "fault_alloc_refused", "fault_shared_file_cursor_moved"],
         }
     }
 }
